@@ -2,7 +2,7 @@
    (b, f) is decided by shift_count on  prefix_b ++ [error] ++ rest : the
    `error' and the next recovery_match tokens (or all remaining ones, up to
    acceptance) can be shifted. *)
-From YV Require Import Prelude EarleySpec Recognizer.
+From YV Require Import Prelude EarleySpec Recognizer Viable.
 
 Theorem C08_shiftable_decider : forall g axiom w k acc, shift_count g axiom w = Some (k, acc) ->
   (forall j, j <= k -> j <= length w -> count_nonempty (earley_sets g axiom w) > 0 -> exists i, Item g axiom (firstn j w) i) /\
@@ -10,3 +10,10 @@ Theorem C08_shiftable_decider : forall g axiom w k acc, shift_count g axiom w = 
   (acc = true <-> sentence g axiom w).
 Proof. exact shift_count_spec. Qed.
 Print Assumptions C08_shiftable_decider.
+
+(* "can be shifted" means "some sentence of the grammar with `error' as a
+   terminal starts like this" when every nonterminal is productive *)
+Theorem C08_shiftable_means_viable : forall g axiom, productive g -> forall p,
+  (exists i, Item g axiom p i) <-> (exists s, sentence g axiom (p ++ s)).
+Proof. exact viable_prefix_iff. Qed.
+Print Assumptions C08_shiftable_means_viable.
